@@ -1057,7 +1057,10 @@ func (w *wnWorld) checkC16(d *nkDump, when string) {
 	}
 	needed := map[string]int64{}
 	for _, f := range files {
-		if f.uncertain || ((f.local || f.cached) && !f.deleted) {
+		// (also a file whose download did not complete: the store tracks it as a
+		// cached file of its own and it holds the chunks it did fetch)
+		_, tracked := d.GC[f.ref.String()]
+		if f.uncertain || ((f.local || f.cached) && !f.deleted) || (f.hasRef && tracked && !f.deleted) {
 			for _, c := range f.chunks {
 				needed[c] = f.id
 			}
